@@ -43,8 +43,8 @@ def expected (c : Cfg) : Res :=
   | [v] => .val v
   | _ :: _ :: _ => .panic .multi
 
-/-- the returned-error table: every outcome a call may have. -/
-def allowed (c : Cfg) : Res → Bool
+/-- the coarse returned-error table (round 1): every outcome a call may have. -/
+def allowed0 (c : Cfg) : Res → Bool
   | .val v => (writesOf c.rscript).contains v
   | .err (.user k) => anyScript c fun sc => sc.contains (.cancel (some k))
   | .err .nilCancel => anyScript c fun sc => sc.contains (.cancel none)
@@ -55,6 +55,115 @@ def allowed (c : Cfg) : Res → Bool
   | .panic .reducer => hasPanic c.rscript
   | .panic .multi => decide (2 ≤ (writesOf c.rscript).length)
   | .panic .sendClosed => !(writesOf c.rscript).isEmpty && (c.ctxCan || c.ctxPre || anyScript c hasCancel)
+
+/-- the refinement of round 2: the value is the reducer's FIRST write; `ErrReduceNoOutput` is possible
+only if the reducer writes nothing, or its write can be dropped because the context ends, or it panics
+instead (that panic is then re-raised unless a cancel ended the call first). -/
+def refined (c : Cfg) : Res → Bool
+  | .val v => (writesOf c.rscript).head? = some v
+  | .err .noOutput => (writesOf c.rscript).isEmpty || c.ctxCan || c.ctxPre || hasPanic c.rscript
+  | _ => true
+
+/-- the returned-error table: every outcome a call may have. -/
+def allowed (c : Cfg) (r : Res) : Bool := allowed0 c r && refined c r
+
+/-! ### the table for the schedule that actually happened
+
+The harness stamps every event of a user function into one totally ordered history (one mutex), an
+event that *proves* something has happened AFTER the operation returned, an event that *announces* an
+operation BEFORE it is invoked.  So "proof of A is stamped before the announcement of B" implies "A
+happened before B" in the real execution.  `allowedAt` is the returned-error table restricted by these
+facts; the model-side counterparts are `Props.value_only_if_no_error_before_the_write`,
+`Props.no_output_only_if_no_error_before_reducer_end`, `Props.first_cancel_wins`,
+`Props.dropped_item_means_fault`. -/
+
+inductive Who | mapper (i : Nat) | reducer
+  deriving DecidableEq, Repr
+
+inductive Ev
+  | mstart (i : Nat) | mend (i : Nat) | mpanic (i : Nat)     -- mapper i: started / about to return / about to panic
+  | taken (k : Nat) | gend | gpanic                           -- generator: send of item k returned / about to return / to panic
+  | cbegin (w : Who) (e : Option Nat) | cend (w : Who)        -- about to call cancel(e) / cancel returned
+  | wbegin (v : Nat) | wend (v : Nat)                         -- reducer: about to Write v / Write returned
+  | recv (v : Nat) | closed | rend | rpanic                   -- reducer: received v / saw the pipe closed / about to return / to panic
+  | ctxBegin | ctxEnd                                         -- the context is about to be cancelled / has been cancelled
+  | ret                                                       -- the call returned
+  deriving DecidableEq, Repr
+
+/-- the events before the first one satisfying `p` (all of them if there is none). -/
+def upTo (p : Ev → Bool) (h : List Ev) : List Ev := h.takeWhile fun e => !p e
+
+def isCend : Ev → Bool
+  | .cend _ => true
+  | _ => false
+
+def isWbegin : Ev → Bool
+  | .wbegin _ => true
+  | _ => false
+
+/-- events after which the dispatcher may leave its loop (and run its own deferred `drain(source)`)
+without any cancel: a mapper panic (`failed`), the context, the end of the reducer (`finish`). -/
+def opensDispatcherDrain : Ev → Bool
+  | .mpanic _ => true
+  | .ctxBegin => true
+  | .rend => true
+  | .rpanic => true
+  | _ => false
+
+/-- an item that was never handed to a mapper has been taken from the source while neither a mapper
+panic, nor the context, nor the end of the reducer can have made the dispatcher drain: only
+`cancel`'s `drain(source)` can have taken it, and that runs after `retErr.Set`
+(model: `Props.dropped_item_means_fault`). -/
+def drainedTake (mapped : List Nat) : List Ev → Bool
+  | [] => false
+  | e :: rest =>
+    if opensDispatcherDrain e then false
+    else (match e with
+          | .taken k => !mapped.contains k
+          | _ => false) || drainedTake mapped rest
+
+/-- the history prefix `pre` proves that some cancel has recorded its error (`retErr.Set`). -/
+def setEvidence (mapped : List Nat) (pre : List Ev) : Bool :=
+  pre.any isCend || drainedTake mapped pre
+
+def firstWrite (h : List Ev) : Option Nat :=
+  h.findSome? fun e => match e with
+    | .wbegin v => some v
+    | _ => none
+
+/-- some `cancel(e)` call began before any cancel call had returned (only such a call can be the one that
+ran under the `sync.Once`). -/
+def cancelCouldWin (e : Option Nat) : List Ev → Bool
+  | [] => false
+  | .cend _ :: _ => false
+  | .cbegin _ e' :: rest => e' = e || cancelCouldWin e rest
+  | _ :: rest => cancelCouldWin e rest
+
+/-- some `cancel(e)` call began (before the return). -/
+def cancelBegan (e : Option Nat) (h : List Ev) : Bool :=
+  h.any fun ev => match ev with
+    | .cbegin _ e' => e' = e
+    | _ => false
+
+/-- the outcomes possible for the schedule that happened (`h` = observed history, `mapped` = the items
+handed to a mapper).  Sound for the real code by the happens-before argument above. -/
+def allowedAt (mapped : List Nat) (h : List Ev) (r : Res) : Bool :=
+  let hr := upTo (· == .ret) h
+  match r with
+  | .val v =>
+    -- the first write, begun before the return, while no error was known to be recorded and the context not known to be over
+    firstWrite hr = some v && !setEvidence mapped (upTo isWbegin hr) && !(upTo isWbegin hr).contains .ctxEnd
+  | .err .noOutput =>
+    -- the reducer ended normally before the return, and no error was known to be recorded before that
+    hr.contains .rend && !setEvidence mapped (upTo (· == .rend) hr)
+  | .err (.user k) => cancelCouldWin (some k) hr
+  | .err .nilCancel => cancelCouldWin none hr
+  | .err .deadline => hr.contains .ctxBegin
+  | .panic .gen => hr.contains .gpanic
+  | .panic (.mapper i) => hr.contains (.mpanic i)
+  | .panic .reducer => hr.contains .rpanic
+  | .panic .multi => decide (2 ≤ (hr.filter isWbegin).length)
+  | .panic .sendClosed => hr.any isWbegin
 
 /-! ### monitors over observations -/
 
